@@ -1,0 +1,14 @@
+//go:build verif
+
+package vamana
+
+// VerifSearchStep, when installed by a test harness, is called before every
+// node expansion of the greedy search (only compiled with -tags verif). It may
+// block there to hold a search in the middle of its graph walk.
+var VerifSearchStep func()
+
+func verifSearchStep() {
+	if VerifSearchStep != nil {
+		VerifSearchStep()
+	}
+}
